@@ -201,28 +201,30 @@ def sweep_sizes(ctx, _rng=None, only=None):
         rng.shuffle(ids)
         par = {0: []}
         for j in range(1, n):
-            par[j] = sorted({j - 1 if rng.random() < 0.6 else rng.randrange(j), rng.randrange(j)})
+            par[j] = sorted({j - 1 if rng.random() < (0.6 if n < 1000 else 0.02) else rng.randrange(j), rng.randrange(j)})
         edges = [(ids[j], ids[i]) for j in range(1, n) for i in par[j]]
         rng.shuffle(edges)
-        anc = {0: set()}
-        for j in range(1, n):
-            anc[j] = set(par[j]).union(*(anc[i] for i in par[j]))
         chi = {j: set() for j in range(n)}
         for j in range(1, n):
             for i in par[j]:
                 chi[i].add(j)
-        desc = {j: set() for j in range(n)}
-        for j in range(n - 1, -1, -1):
-            for a in anc[j]:
-                desc[a].add(j)
-        want = {'parents': lambda j: set(par[j]), 'children': lambda j: chi[j], 'ancestors': lambda j: anc[j], 'descendants': lambda j: desc[j]}
+
+        def walk(j, nxt):
+            seen, todo = set(), [j]
+            while todo:
+                for i in nxt[todo.pop()]:
+                    if i not in seen:
+                        seen.add(i)
+                        todo.append(i)
+            return seen
+        want = {'parents': lambda j: set(par[j]), 'children': lambda j: chi[j], 'ancestors': lambda j: walk(j, par), 'descendants': lambda j: walk(j, chi)}
         ctx.case(['sweep-sizes', n], True, 'node counts on powers of two, full sweeps', sample={'nodes': n, 'edges': len(edges)})
         problem = None
         facs = ('indexed', 'incremental', 'builder') if n < 1000 else ('indexed', 'incremental')
         try:
             for f in facs:
                 g = gl.build_impl(f, edges)
-                order = list(range(n)) if n < 1000 else rng.sample(range(n), 600) + [n - 1, n - 2, 0, 1]
+                order = list(range(n)) if n < 1000 else rng.sample(range(n), 150) + [n - 1, n - 2, 0, 1]
                 for j in order + order[:12]:
                     t = TermId.from_curie(ids[j])
                     for q, w in want.items():
